@@ -67,6 +67,32 @@ def interp_expected(values, z):
     return values[k] * (1 - t) + values[k + 1] * t
 
 
+def window_py(ap, z, L):
+    """the published window formulas, evaluated here (not by the harness), in binary64"""
+    k = ap["kind"]
+    if k == "Off":
+        return 1.0
+    if k == "Interpolate":
+        return float(interp_expected([frac_of_hex(v) for v in ap["values"]], Fraction(z)))
+    a = fh(ap["p"])
+    if k == "Gaussian":
+        bw = 2.0 * (a / (2.0 * math.sqrt(2.0 * math.log(2.0)))) / L
+        return math.exp(-0.5 * (z / bw) ** 2)
+    if k == "Bartlett":
+        return 1.0 - abs(z) / a
+    if k == "Blackman":
+        return 0.42 + 0.5 * math.cos(math.pi * z / a) + 0.08 * math.cos(2 * math.pi * z / a)
+    if k == "Connes":
+        return (1.0 - (z / a) ** 2) ** 2
+    if k == "Cosine":
+        return math.cos(0.5 * math.pi * z / a)
+    if k == "Hamming":
+        return (27.0 + 23.0 * math.cos(math.pi * z / a)) / 50.0
+    if k == "Welch":
+        return 1.0 - (z / a) ** 2
+    raise ValueError(k)
+
+
 def window_exact(ap, z, L):
     """float evaluation of the published formula, used only by the oracle for Interpolate domain centres"""
     k = ap["kind"]
@@ -101,6 +127,9 @@ def oracle(ctx, obs):
                     ctx.violation("S5", f"{call} = {v!r} is outside [0, 1]", {"kind": "range", "window": kind}, rep)
             if kind == "Off" and abs(v - 1.0) > TOL:
                 ctx.violation("S5", f"{call} = {v!r}: no apodization must weigh 1 everywhere", {"kind": "off", "window": kind}, rep)
+            if o.get("v_pp") is not None and not (abs(fh(o["v_pp"]) - v) <= TOL * max(1.0, abs(v))):
+                ctx.violation("S5", f"PeriodicPoling::On{{.., apodization: {ap_desc(ap)}}}.integration_constant({z!r}, {L!r} m) = {fh(o['v_pp'])!r}, "
+                              f"but the apodization itself gives {v!r} there", {"kind": "wrapper", "window": kind}, dict(rep, wrapper_value=fh(o["v_pp"])))
             if o.get("half_point") and abs(v - 0.5) > TOL:
                 ctx.violation("S5", f"{call} = {v!r} at half the FWHM from the centre (z = fwhm/L), expected 1/2",
                               {"kind": "gaussian_half", "window": kind}, rep)
@@ -116,6 +145,9 @@ def oracle(ctx, obs):
             ctx.count(f"interp:n={len(vals)}")
             exp = interp_expected(vals, z)
             rep = {"values": [float(x) for x in vals], "z": float(z), "value": v, "expected": float(exp)}
+            if o.get("v_pp") is not None and not (abs(fh(o["v_pp"]) - v) <= TOL * max(1.0, abs(v))):
+                ctx.violation("S5", f"PeriodicPoling::On{{.., apodization: Interpolate({rep['values']})}}.integration_constant({float(z)!r}) = {fh(o['v_pp'])!r}, "
+                              f"but the apodization itself gives {v!r}", {"kind": "wrapper", "window": "Interpolate"}, dict(rep, wrapper_value=fh(o["v_pp"])))
             if not (v == v) or abs(Fraction(v) - exp) > Fraction(1, 10**12) * max(1, abs(exp)):
                 what = "first sample" if z == -1 else "last sample" if z == 1 else "piecewise-linear interpolation of the samples"
                 ctx.violation("S5", f"Apodization::Interpolate({rep['values']}).integration_constant({float(z)!r}) = {v!r}, expected the {what} {float(exp)!r}",
@@ -202,6 +234,12 @@ def oracle_dom(ctx, o):
         rep = dict(base, index=i, pair=[p, q], centre_z=zc, window_at_centre=a)
         if not (abs(zc - ((2 * i + 1) / n - 1)) <= TOL):
             ctx.violation("S5", f"{call}: domain {i} of {n} is evaluated at z = {zc!r}, not at its centre {(2*i+1)/n-1!r}", dict(kind="centre_z", **sigk), rep)
+        # the window at the domain's centre, computed HERE from (i, n): z_c = -1 + (2 i + 1) / n
+        a_py = window_py(ap, (2 * i + 1) / n - 1, L)
+        if abs(a - a_py) > 1e-9 * max(1.0, abs(a_py)):
+            ctx.violation("S5", f"{call}: the window value the domain list is built from at domain {i} of {n} is {a!r}; at the domain centre "
+                          f"z = {(2*i+1)/n-1!r} the window is {a_py!r}", dict(kind="centre_z", **sigk), dict(rep, window_at_centre_expected=a_py))
+        a = a_py
         if abs(a) > 1:
             continue   # outside the clause's scope (acos is undefined there)
         if abs(p + q - 1) > TOL or not (0 <= p <= 1 and 0 <= q <= 1):
@@ -238,10 +276,12 @@ def same_apod(a, b):
 def request_step(req, op):
     """the abstract state machine of Model/Poling.v (what the caller asked for)"""
     name = op["op"]
-    if name in ("with_period", "assign_period"):
+    if name == "as_optimum_err":
+        return req
+    if name in ("with_period", "assign_period", "as_optimum"):
         p = fh(op["p"])
         if req is None:
-            return (p, {"kind": "Off"}) if name == "with_period" else None
+            return (p, {"kind": "Off"}) if name in ("with_period", "as_optimum") else None
         return (p, req[1])
     if req is None:
         return None
@@ -259,7 +299,7 @@ def oracle_upd(ctx, o):
     ctx.count("upd:from_off" if not st["on"] else "upd:from_on")
     for s in o["steps"]:
         op = s["op"]
-        hist.append({"op": op["op"], **({"period_m": fh(op["p"])} if "p" in op else {"apodization": ap_plain(op["ap"])})})
+        hist.append({"op": op["op"], **({"period_m": fh(op["p"])} if "p" in op else {"apodization": ap_plain(op["ap"])} if "ap" in op else {})})
         req = request_step(req, op)
         a = s["after"]
         ctx.seen(("upd", json.dumps(o["init"], sort_keys=True), len(hist), json.dumps(op, sort_keys=True)))
@@ -297,9 +337,11 @@ def interp_hint(values_hex, z_frac):
     return n, math.floor(i), math.ceil(i)
 
 
-def window_goal(ap, z_hex, L_hex, v_hex, tol="1e-12"):
+def window_goal(ap, z_hex, L_hex, v_hex, tol="1e-12", wrapper=False):
     """(goal, tactic) for |model - v| <= tol"""
     goal = f"Rabs (integration_constant {ap_coq(ap)} {coq_hex(z_hex)} {coq_hex(L_hex)} - {coq_hex(v_hex)}) <= {tol}"
+    if wrapper:
+        goal = f"Rabs (pp_integration_constant (On 1 NEGATIVE {ap_coq(ap)}) {coq_hex(z_hex)} {coq_hex(L_hex)} - {coq_hex(v_hex)}) <= {tol}"
     if ap["kind"] == "Interpolate":
         n, kf, kc = interp_hint(ap["values"], frac_of_hex(z_hex))
         if n == 0:
@@ -316,6 +358,8 @@ def state_coq(st):
 
 def op_coq(op):
     n = op["op"]
+    if n == "as_optimum":
+        return f"(OpAsOptimum {coq_hex(op['p'])})"
     if n == "with_period":
         return f"(OpWithPeriod {coq_hex(op['p'])})"
     if n == "assign_period":
@@ -336,7 +380,7 @@ def correspondence(ctx, obs, label, max_win=None):
     if max_win:
         wins = wins[:: max(1, len(wins) // max_win)]
     for j, o in enumerate(wins):
-        g, t = window_goal(o["ap"], o["z"], o["L"], o["v"])
+        g, t = window_goal(o["ap"], o["z"], o["L"], o.get("v_pp", o["v"]) if j % 2 else o["v"], wrapper=bool(j % 2 and o.get("v_pp")))
         add(f"w{j}", g, t, ("win", o))
     interps = [o for o in obs if o["kind"] == "interp" and is_finite_hex(o["v"])]
     if max_win:
@@ -384,6 +428,9 @@ def correspondence(ctx, obs, label, max_win=None):
         prev = o["init"]["state"]
         for s in o["steps"]:
             after = s["after"]["state"]
+            if s["op"]["op"] == "as_optimum_err":
+                prev = after
+                continue
             add(f"u{ju}", f"pp_step {state_coq(prev)} {op_coq(s['op'])} = {state_coq(after)}", "case_step", ("step", o, s, prev))
             if after["on"]:
                 add(f"us{ju}", f"pp_signed_period {state_coq(after)} = Some {coq_hex(s['after']['signed_period'])}", "case_signed", ("signed", o, s, prev))
@@ -503,7 +550,31 @@ def full_lists(ctx, obs, chunk=40, budget_s=420):
 
 
 # ------------------------------------------------------------------------------------------------ pipeline
+def replay(ctx):
+    """./check C19 --replay <file>: re-run the recorded input (same seed and tier -> the same generated inputs) through the harness and
+    the property oracle, and report only the recorded signature.  Records of broken proof obligations / correspondence cases have no
+    input of their own: for those the full check is the replay."""
+    rec = json.load(open(ctx.replay))
+    sig = rec.get("signature", {})
+    if rec.get("stage") in ("S3", "S4") or sig.get("kind") in ("proof", "model_mismatch"):
+        ctx.log("REPLAY: the record is a broken proof obligation / correspondence case; running the full check")
+        ctx.replay = None
+        ctx.seed, ctx.tier = int(rec.get("seed", ctx.seed)), rec.get("tier", ctx.tier)
+        return run(ctx)
+    ctx.seed, ctx.tier = int(rec.get("seed", ctx.seed)), rec.get("tier", ctx.tier)
+    binp = build_harness(ctx)
+    obs = run_harness(ctx, binp, ["c19", ctx.seed, 12 if ctx.tier == "quick" else 60, 3000 if ctx.tier == "quick" else 100000, 0])
+    oracle(ctx, obs)
+    hits = [v for v in ctx.violations if v["sig"] == sig]
+    ctx.log(f"REPLAY {ctx.replay}: signature {sig} {'REPRODUCES' if hits else 'does not reproduce'} ({len(hits)} matching of {len(ctx.violations)} violations)")
+    ctx.violations = hits
+    ctx.cov["rule"] = "replay of one recorded input (seed and tier of the record)"
+    return finish(ctx)
+
+
 def run(ctx):
+    if getattr(ctx, "replay", None):
+        return replay(ctx)
     binp = build_harness(ctx)
     msgs, spans = regen(ctx, ["poling"])
     ctx.cov["translated_spans"] = {k: v for k, v in spans.items() if k.split("::")[0] in ("periodic_poling", "types", "config", "math", "constants")}
